@@ -170,6 +170,10 @@ def jobs_for(pid, tier, seed):
                       thread_mode=True, cancel=False, take=False, probe=False, lifo=False, max_gets=1))
         J.append(mfam('thread level: take / return racing close (2 objects)', ['C06'], 10 if q else 14, tasks=2, env={'create': ('ok',), 'recycle': ('ok',)}, ctl=('close',), max_ctl=1,
                       thread_mode=True, prefix=(('get', 'T1', 0), ('get', 'T2', 0)), cancel=False, probe=False, lifo=False, max_gets=1))
+        J.append(mfam('thread level: a resize() on a task thread racing close() (1 object out, returned afterwards)', ['C06'], 12 if q else 16, tasks=2, env={'create': ('ok',), 'recycle': ('ok',)}, ctl=('close', 'status'), max_ctl=2,
+                      thread_mode=True, prefix=(('get', 'T2', 0),), task_ctl={'T1': (('resize', 2), ('resize', 0))}, cancel=False, take=False, probe=False, lifo=False, max_gets=1, max_size_concrete=1))
+        J.append(mfam('thread level: retain() racing close() (1 idle object, 1 out)', ['C06', 'C09'], 12 if q else 16, tasks=2, env={'create': ('ok',), 'recycle': ('ok',)}, ctl=('close', 'retain'), max_ctl=2,
+                      thread_mode=True, prefix=(('get', 'T1', 0), ('get', 'T2', 0), ('drop', 'T1', 0)), cancel=False, take=False, probe=False, lifo=False, max_gets=1, max_size_concrete=2))
     elif pid == 'C07':
         E = {'create': OE, 'recycle': OE}
         J.append(mfam('2 tasks + 2 resizes (targets 0..3), take/return', ['C07'], 6 if q else 8, tasks=2, env={'create': ('ok',), 'recycle': ('ok',)}, ctl=('resize',), max_ctl=2, cancel=False, lifo=False))
